@@ -536,14 +536,11 @@ func checkEmbeddedStores(c *Ctx, rule string, gen *packages.Package) {
 // that do not fit the type — guardValidations → SetValidations). The documents that get
 // embedded must therefore be rendered before the first call of makeCodegenApp that reaches
 // such a writer through the package's static call graph.
-func checkRenderedBeforePlanning(c *Ctx, rule string, gen *packages.Package) {
-	c.Rule(rule, "makeCodegenApp marshals Spec() before its first call that reaches (static call graph of the generator package) a function storing into spec.Definitions or calling SetValidations on a spec value", 1)
+// documentWriterReach: reach(f) names a function storing into the loaded document's Definitions (or
+// calling SetValidations on a spec value) that f reaches through static calls inside the generator package
+// ("" when it reaches none). The second result is the number of writer functions found.
+func documentWriterReach(gen *packages.Package, withSetValidations bool) (func(f *types.Func, seen map[*types.Func]bool) string, int) {
 	info := gen.TypesInfo
-	fd := load.FuncDecl(gen, "appGenerator.makeCodegenApp")
-	if fd == nil {
-		c.Anchor(rule, "generator.appGenerator.makeCodegenApp", "not found")
-		return
-	}
 	decls := map[*types.Func]*ast.FuncDecl{}
 	for _, d := range load.AllFuncs(gen) {
 		if f, ok := info.Defs[d.Name].(*types.Func); ok {
@@ -578,7 +575,7 @@ func checkRenderedBeforePlanning(c *Ctx, rule string, gen *packages.Package) {
 					}
 				}
 			case *ast.CallExpr:
-				if se, ok := x.Fun.(*ast.SelectorExpr); ok && se.Sel.Name == "SetValidations" {
+				if se, ok := x.Fun.(*ast.SelectorExpr); ok && se.Sel.Name == "SetValidations" && withSetValidations {
 					why = "calls " + goan.ExprString(se)
 				}
 			}
@@ -592,9 +589,8 @@ func checkRenderedBeforePlanning(c *Ctx, rule string, gen *packages.Package) {
 			seeds[f] = w
 		}
 	}
-	if len(seeds) < 2 {
-		c.Unk(rule, "writers into the loaded document", "", fmt.Sprintf("%d writer functions found (expected makeNewStruct and guardValidations)", len(seeds)))
-		return
+	if len(seeds) < 2 && withSetValidations || len(seeds) < 1 {
+		return nil, len(seeds)
 	}
 	// reach[f] = a seed reachable from f
 	memo := map[*types.Func]string{}
@@ -630,6 +626,22 @@ func checkRenderedBeforePlanning(c *Ctx, rule string, gen *packages.Package) {
 		})
 		memo[f] = res
 		return res
+	}
+	return reach, len(seeds)
+}
+
+func checkRenderedBeforePlanning(c *Ctx, rule string, gen *packages.Package) {
+	c.Rule(rule, "makeCodegenApp marshals Spec() before its first call that reaches (static call graph of the generator package) a function storing into spec.Definitions or calling SetValidations on a spec value", 1)
+	info := gen.TypesInfo
+	fd := load.FuncDecl(gen, "appGenerator.makeCodegenApp")
+	if fd == nil {
+		c.Anchor(rule, "generator.appGenerator.makeCodegenApp", "not found")
+		return
+	}
+	reach, nWriters := documentWriterReach(gen, true)
+	if reach == nil {
+		c.Unk(rule, "writers into the loaded document", "", fmt.Sprintf("%d writer functions found (expected makeNewStruct and guardValidations)", nWriters))
+		return
 	}
 	var firstWriter token.Pos
 	firstWhy := ""
